@@ -66,12 +66,69 @@ def readers_run(seed, rounds, binary):
     return res
 
 
+PROBE_ACCOUNTS, PROBE_RESETS, PROBE_RUNS = 300, 150, 4
+
+
+def probe_run(seed, binary, runs=PROBE_RUNS):
+    """Readers against head resets (harness 'probe'): a few hundred accounts with pending
+    transactions, 150 head changes between blocks of identical state handed to the pool's
+    scheduler, two reader goroutines on the read side of the pool (Nonce, Stats, Pending,
+    Content, Get, Status, Locals).  Every answer must be the one a sequential history gives.
+    Repeated with different key sets; stops at the first run with a disagreement."""
+    import vf
+    res = {"ran": False, "runs": [], "disagreements": 0}
+    if not os.path.exists(binary):
+        return res
+    for k in range(runs):
+        rc, log = vf.sh([binary, "probe", "-seed", str(seed + k), "-n", str(PROBE_ACCOUNTS), "-resets", str(PROBE_RESETS)],
+                        env=vf.GOENV, timeout=300)
+        res["ran"] = True
+        run = {"exit": rc}
+        for line in log.splitlines():
+            if line.startswith("{"):
+                try:
+                    run.update(json.loads(line))
+                except Exception:
+                    pass
+        if rc != 0 and "disagreements" not in run:
+            run["crash_tail"] = log[-1500:]
+        res["runs"].append(run)
+        if rc != 0:
+            res["disagreements"] = run.get("disagreements", -1)
+            res["first_bad"] = run
+            break
+    return res
+
+
+def _probe_violation(vf, pid, pr):
+    bad = pr["first_bad"]
+    rp = os.path.join(vf.VERIF, "replays", "%s_oracle_probe.json" % pid)
+    os.makedirs(os.path.dirname(rp), exist_ok=True)
+    what = "reader-saw-state-no-sequential-history-produces"
+    json.dump({"what": what,
+               "input": {"probe": bad.get("probe", {"seed": 1, "accounts": PROBE_ACCOUNTS, "resets": PROBE_RESETS, "readers": 2}),
+                         "what": what,
+                         "disagreements": bad.get("disagreements"), "observations": bad.get("observations"),
+                         "first_bad_observation": bad.get("first_bad_observation", bad.get("crash_tail", ""))},
+               "note": "the overlap of a reader with a reorg run is up to the Go scheduler: the replay reruns the probe 5 times "
+                       "with the recorded parameters and prints the hit rate",
+               "replay_cmd": "/verif/bin/check %s --replay <this file>" % pid}, open(rp, "w"), indent=1)
+    print("VIOLATION property=%s replay=%s" % (pid, rp), flush=True)
+
+
 def check(pid, tier, seed):
     """standard_check plus (every tier) the concurrent-readers scenario on the
     normal binary and (thorough tier) the -race runs of that scenario and of the
     mixed concurrent workload.  A detected race, a reader result that differs from
     the sequential view or a final-state oracle hit fails the check."""
     import vf
+    # readers-vs-resets probe first (a few seconds): its replay is an oracle replay with a failing input
+    pr = {"ran": False}
+    ok, _, binp = vf.build_harness(SPEC["harness"], SPEC["hooks"])
+    if ok:
+        pr = probe_run(seed, binp, PROBE_RUNS if tier == "quick" else 4 * PROBE_RUNS)
+        if pr.get("first_bad"):
+            _probe_violation(vf, pid, pr)
     rc = vf.standard_check(pid, tier, seed)
     evp = os.path.join(vf.VERIF, "evidence", pid + ".json")
     try:
@@ -80,6 +137,9 @@ def check(pid, tier, seed):
         print("concurrent runs not recorded:", e)
         return rc
     extra_violations = 0
+    ev["coverage"]["readers_vs_resets_probe"] = {k: v for k, v in pr.items() if k != "first_bad"}
+    if pr.get("first_bad"):
+        extra_violations += 1
     binary = os.path.join(vf.BUILD, "c20")
     rd = readers_run(seed, 150 if tier == "quick" else 600, binary)
     ev["coverage"]["concurrent_readers_run"] = rd
@@ -194,6 +254,10 @@ SPEC = {
         "scheduleReorgLoop (which requests end up in which run) are exercised on the real scheduler by the burst ops and their oracle clause "
         "'pool-on-stale-head', not modelled in Coq",
         "totality assumes the blockChain contract (reset's new head is known to the chain); an unknown new head inside the reorg-walk range makes Go dereference nil",
+        "readers overlapping a reorg run: the 'probe' run (every tier: 300 accounts x 3 pending txs, 150 head changes between blocks of "
+        "identical state through the real scheduler, a nonce-polling reader and a reader cycling through Stats/Get/Status/Locals/Pending/Content) "
+        "checks that every answer is the one a sequential history gives; whether a reader overlaps a run is up to the Go scheduler, so the probe is "
+        "repeated (4 key sets quick, 16 thorough) and its replay reports a hit rate",
         "data races: Go memory model is outside Coq; lock inventory (C20_lock_discipline: shared fields only inside pool.mu; "
         "C20_read_regions_do_not_write: nothing reachable from an RLock-only region writes shared state, lazy caches included), "
         "the concurrent-readers scenario (every tier) and the -race runs (thorough tier) are supporting evidence",
